@@ -9,7 +9,7 @@ use crate::Tier;
 use verif_rt::core::ExecResult;
 use verif_rt::explore::{Finding, Scenario};
 
-pub const ROLES: [&str; 14] = [
+pub const ROLES: [&str; 15] = [
     "dispatch2",
     "sub+unsub",
     "selector+unsub",
@@ -24,6 +24,7 @@ pub const ROLES: [&str; 14] = [
     "close",
     "addreducer+dispatch",
     "chanlatest+unsub",
+    "dispatch-effect-action",
 ];
 
 /// ops of role `role` placed in thread slot `slot` (ids are made unique per slot)
@@ -43,6 +44,7 @@ pub fn role_ops(role: usize, slot: u32) -> Vec<Op> {
         10 => vec![Op::ClientThunk(500 + slot)],
         11 => vec![Op::Close],
         12 => vec![Op::AddReducer(1 + slot), Op::Dispatch(Act::new(100 * (slot + 1) + 50))],
+        14 => vec![Op::Dispatch(Act::new(100 * (slot + 1) + 60).eff(0, EFF_ACTION)), Op::Dispatch(Act::new(100 * (slot + 1) + 61))],
         13 => vec![Op::Subscribed { id: b + 7, cap: 1, pol: Pol::Latest, gated: false, reads: true }, Op::Unsub(b + 7)],
         _ => unreachable!(),
     }
@@ -97,7 +99,7 @@ pub fn scenarios(tier: Tier) -> Vec<Scenario> {
             for ms in multisets(ROLES.len(), 3) {
                 // roles that bring their own threads (channeled delivery, pool jobs) or can end
                 // in a known hang make the tree wide: two or more of them -> bound 1
-                let heavy = ms.iter().filter(|r| matches!(**r, 3 | 4 | 6 | 7 | 8 | 10 | 13)).count();
+                let heavy = ms.iter().filter(|r| matches!(**r, 3 | 4 | 6 | 7 | 8 | 10 | 13 | 14)).count();
                 add(&ms, 1, if heavy >= 2 { 1 } else { 2 });
             }
             for ms in multisets(ROLES.len(), 4) {
